@@ -123,7 +123,21 @@ fn side_strategy(v: vmodel::Variant) -> BoxedStrategy<String> {
             _ => s.chars().enumerate().map(|(i, c)| if i >= 2 && (i as u8 ^ k) & 1 == 1 { c.to_ascii_lowercase() } else { c }).collect(),
         }
     });
-    prop_oneof![5 => valid, 3 => gens::utf8_text_strategy(v)].boxed()
+    // header values at the two strict-parser gates, optionally with a non-hex character further
+    // on: in a strict build an operand with TWO faults (whose precedence a fast path may change)
+    let gated = (gens::hash_bytes_strategy(v), any::<bool>(), proptest::sample::select(vec![0x30u8, 0x31, 0xFF, 0x00]), proptest::sample::select(vec![0xA9u8, 0xAA, 0xFF, 0x00]), proptest::collection::vec((any::<u16>(), proptest::sample::select(vec![b'G', b'@', b' ', b'g', 0x7f])), 0..3))
+        .prop_map(move |(mut b, with, c, l, bad)| {
+            b[0] = c;
+            b[v.ck] = l;
+            let mut t = vmodel::text::encode(v, &b, with);
+            let first_body = t.len() - 2 * v.body();
+            for (pos, ch) in bad {
+                let i = first_body + gens::idx(pos, 2 * v.body());
+                t[i] = ch;
+            }
+            String::from_utf8(t).unwrap()
+        });
+    prop_oneof![5 => valid, 3 => gens::utf8_text_strategy(v), 2 => gated].boxed()
 }
 
 /// Independent operands, and RELATED operands (the same string on both sides, or a
